@@ -30,8 +30,10 @@ LEVEL_TEXT = ('static analysis: (D1+D2) skgenome.intersect.idx_ranges is abstrac
               'chromosome, or with nothing (kept iff keep_empty); (D7) by_ranges (outer / inner / trim) and iter_slices on literal tables with '
               'chromosomes absent from either side and index labels that are not positions: one result per query range, in order, holding exactly'
               ' the overlapping / contained rows (clipped to the query range in trim mode) (their labels for iter_slices). A second literal '
-              "layout has rows nested inside a long one (ends not monotone, queries starting past the last row's end). Does not decide the row "
-              "sets of arbitrary tables beyond predicate/side agreement (start column sorted, each chromosome's rows contiguous, is the premise).")
+              "layout has rows nested inside a long one (ends not monotone, queries starting past the last row's end). Several query ranges start"
+              ' at 0 (each starts from all rows again); D4 includes equal-valued hits (the summary still sees both) and the no-summary-function '
+              'dispatch on an empty source. Does not decide the row sets of arbitrary tables beyond predicate/side agreement (start column '
+              "sorted, each chromosome's rows contiguous, is the premise).")
 TECHNIQUE = "abstract interpretation with symbolic sorted columns (searchsorted as counting atoms, masks as predicate sets); index-kind lint; return-kind rule"
 
 IDX = "skgenome.intersect.idx_ranges"
